@@ -25,7 +25,7 @@ UNIT = {
     'enums': [('src/oper.h', 'opnd_type'), ('src/terminal.h', 'terminal_type')],
     'consts': [('src/policies.h', ['FULL_ONLY', 'SPARSE_ONLY'])],
     'classes': {
-        'unpacked_node': {'opaque': True}, 'ct_entry_type': {'opaque': True}, 'forest': {'opaque': True}, 'ct_item': {'opaque': True},
+        'unpacked_node': {'opaque': True}, 'edge_value': {'opaque': True}, 'ct_entry_type': {'opaque': True}, 'forest': {'opaque': True}, 'ct_item': {'opaque': True},
         'terminal': {'file': T},
         'oper_item': {'file': OI, 'fields': ['mytype', 'the_long']},
         'range_templ': {'file': M, 'bases': ['unary_operation'], 'base_files': {'unary_operation': 'src/oper_unary.h'}, 'fields': ['argF', 'ct']},
@@ -50,6 +50,7 @@ UNIT = {
         # oper_item tmp(INTEGER): oper_item.cc constructor sets the type; the value is written before it is read
         (r'oper_item tmp\(RTYPE::getOpndType\(\)\);', 'oper_item tmp; VERIF_OPER_ITEM_INTEGER(tmp);', M),
         (r'terminal t;\s*t\.setFromHandle', 'terminal t; t.setFromHandle', M),
+        (r'MEDDLY_DCASSERT\(result\.hasType\(RTYPE::getOpndType\(\)\)\);', '', M),
     ],
     'extra_free': {n: n for n in ['verif_ct_res0', 'verif_ct_key_setN', 'verif_ct_find', 'verif_ct_add', 'unpacked_node__newFromNode', 'unpacked_node__Recycle', 'VERIF_OPER_ITEM_INTEGER']},
     'extra_methods': [
@@ -64,6 +65,7 @@ UNIT = {
         dict(cls='oper_item', name='hasType', file=OI), dict(cls='oper_item', name='getInteger', file=OI), dict(cls='oper_item', name='integer', file=OI),
     ] + variant('intmin') + variant('intmax') + [
         dict(cls='range_templ', name='_compute', file=M, where='out', loops=1),       # RTYPE comes from the job's variant
+        dict(cls='range_templ', name='compute', file=M, where='out'),
     ],
     'stubs': ['compute table: a hit returns the value that was added for the key (ghost g_ct_val); unpacked nodes: the FULL view lists every child at its index, '
               'the SPARSE view lists the non-transparent children only (the ghost child at index ghost_k appears at position g_zpos, which lies inside the node iff that child is not 0)',
@@ -71,6 +73,8 @@ UNIT = {
     'assumptions': ['a node is not its own descendant (children differ from the node being scanned)', 'integer ranges only (the real-valued helper classes have the same shape)'],
     'unverified_surroundings': {'C05': ['realmin / realmax helper classes', 'identity-reduced relations (skipped primed levels mean zeros off the diagonal)']},
     'jobs': [
+        job('min_range_whole_function', 'range_templ__compute', STUBS + ['range_templ___compute'], defines=['RNG_MIN'], variant={'RTYPE': 'intmin'}, entry='h_range_top', object_bits=11),
+        job('max_range_whole_function', 'range_templ__compute', STUBS + ['range_templ___compute'], variant={'RTYPE': 'intmax'}, entry='h_range_top', object_bits=11),
         job('min_range', 'range_templ___compute', STUBS, loops=1, recursive=True, object_bits=11, defines=['RNG_MIN'], variant={'RTYPE': 'intmin'}, entry='h_range'),
         job('max_range', 'range_templ___compute', STUBS, loops=1, recursive=True, object_bits=11, variant={'RTYPE': 'intmax'}, entry='h_range'),
     ],
